@@ -1,8 +1,11 @@
 import Solvor.Net.Theorems
 /-! Axiom audit for the property theorems of C15 (run by every check). -/
 #print axioms Solvor.Net.components_count_correct
+#print axioms Solvor.Net.lowlink_partial
 #print axioms Solvor.Net.kcoreDef_greatest
 #print axioms Solvor.Net.coreNumDef_spec
+#print axioms Solvor.Net.kcore_peeling_correct
+#print axioms Solvor.Net.kcore_set_correct
 #print axioms Solvor.Net.prCheck_iff
 #print axioms Solvor.Net.pagerank_step_nonneg
 #print axioms Solvor.Net.pagerank_step_sum_one
